@@ -150,9 +150,9 @@ def rule_r4(ctx):
     f = prog.need("req0_ctx_recv", "reqrep0/req.c")
     est = [s for s in f.calls("nni_aio_finish_error")
            if any(x.get("k") == "enum" and x["n"] == "NNG_ESTATE" for x in walk(f.expand(s.node["args"][1])))
-           or any(t.node["lhs"].get("k") == "var" and same_expr(t.node["lhs"], f.expand(s.node["args"][1])) and
-                  any(x.get("k") == "enum" and x["n"] == "NNG_ESTATE" for x in walk(f.expand(t.node["rhs"])))
-                  for t in f.assigns())]
+           or (f.expand(s.node["args"][1]).get("k") == "var" and
+               any(rhs is not None and any(x.get("k") == "enum" and x["n"] == "NNG_ESTATE" for x in walk(rhs))
+                   for _, rhs in G.reaching_defs(f, f.expand(s.node["args"][1])["n"], (s.b, s.i))))]
     if not est:
         ctx.fail(r, f, "no NNG_ESTATE", f.line, "req0_ctx_recv no longer reports NNG_ESTATE")
     parks = G.stores(f, "recv_aio", "nonnull")
@@ -275,9 +275,9 @@ def rule_hops(ctx):
 
 
 def run(ctx):
-    rule_r1(ctx)
-    rule_r3(ctx)
-    rule_r4(ctx)
-    rule_r5(ctx)
-    rule_r6(ctx)
-    rule_hops(ctx)
+    ctx.guard(rule_r1)
+    ctx.guard(rule_r3)
+    ctx.guard(rule_r4)
+    ctx.guard(rule_r5)
+    ctx.guard(rule_r6)
+    ctx.guard(rule_hops)
